@@ -469,6 +469,8 @@ def raw_rows(s, mask_ts=True):
         rows.add(w)
     return rows
 
+REFUSAL_STATUS = {'method': 404, 'route': 404, 'pathid': 404, 'ctype': 400, 'cid': 400, 'emptybody': 400, 'toolarge': 400, 'unlisted': 403}
+
 ALL_DUMP = {f'dump.{w}.{f}' for w in ('own', 'other') for f in ('latest', 'snap', 'since', 'ts', 'data', 'versions', 'children', 'error')} | {'dump.raw'}
 OWN_CHAIN = {'dump.own.latest', 'dump.own.versions', 'dump.own.children', 'dump.raw'}
 
@@ -539,6 +541,14 @@ def compare_run(run, owned):
             tags = []
         elif r.ws[0] == 'http':
             tags = http_field_diffs(r)
+            # refusal-set semantics (DESIGN 3.3): a request with several independent defects may be refused with the
+            # status of any of them - the ORDER of the validation steps is not part of any property
+            defects = [d for d in ((r.meta or {}).get('defects') or '-').split('+') if d in REFUSAL_STATUS]
+            if tags == ['http.status'] and len({REFUSAL_STATUS[d] for d in defects}) > 1:
+                ih, mh = parse_http_obs(r.impl), parse_http_obs(r.model)
+                allowed = {REFUSAL_STATUS[d] for d in defects}
+                if ih and mh and ih.get('status') in allowed and mh.get('status') in allowed:
+                    tags = []
             opn = r.op if r.op in ('av', 'gcv', 'as', 'gs') else 'other'
             tags = [t + '.' + opn if t.startswith('http.') else t for t in tags]
         else:
